@@ -55,7 +55,7 @@ func (g *Gen) Pick(quick, thorough int) int {
 	return quick
 }
 
-const chunkLines = 120000
+const chunkLines = 30000
 
 // Writer writes segments into chunked NDJSON files and meta.json.
 type Writer struct {
